@@ -149,9 +149,35 @@ func propagateAll(in []bpath) []bpath {
 	for _, p := range in {
 		q := propagate(p)
 		feasible := true
-		for _, e := range q {
-			if e.Kind == "+" && (e.Text == "false" || e.Text == "!true") {
+		for i, e := range q {
+			if e.Kind != "+" {
+				continue
+			}
+			if e.Text == "false" || e.Text == "!true" {
 				feasible = false
+			}
+			// a fact and its negation on one path, with nothing in between that could change what it talks about
+			neg := canonText(e.Text, true)
+			for j := i + 1; j < len(q) && feasible; j++ {
+				switch q[j].Kind {
+				case "set":
+					lhs := q[j].Text
+					if k := indexTop(lhs, "="); k > 0 {
+						lhs = strings.TrimRight(lhs[:k], "+-*/|&")
+					}
+					lhs = strings.TrimSuffix(strings.TrimSuffix(lhs, "++"), "--")
+					if strings.Contains(e.Text, lhs) {
+						j = len(q) // the subject may have changed
+					}
+				case "call", "ccall":
+					if strings.Contains(e.Text, "(") {
+						j = len(q) // facts about call results are not stable across other calls
+					}
+				case "+":
+					if q[j].Text == neg {
+						feasible = false
+					}
+				}
 			}
 		}
 		if feasible {
@@ -162,6 +188,8 @@ func propagateAll(in []bpath) []bpath {
 }
 
 var dollarRe = regexp.MustCompile(`\$[0-9]+`)
+var opAssignRe = regexp.MustCompile(`^(\$[0-9]+)([-+*/|&])=(.*)$`)
+var loopStepRe = regexp.MustCompile(`(\$[0-9]+)(\+\+|--|[-+*/]=)`)
 var allocCallRe = regexp.MustCompile(`^(\w+\.)?New\w*\(`)
 
 // propagate replaces, along one path, every use of a numbered local by the value it was last set to on that path
@@ -218,10 +246,29 @@ func propagate(p bpath) bpath {
 	for _, ev := range p {
 		ne := ev
 		if ev.Kind == "loop" {
-			out = append(out, ne) // the header keeps its variables: the bounds are read from the preceding sets
+			if strings.HasPrefix(ev.Text, "range ") {
+				ne.Text = "range " + minParens(sub(strings.TrimPrefix(ev.Text, "range ")))
+			}
+			out = append(out, ne) // a counting header keeps its variables: the bounds are read from the preceding sets
+			// a variable stepped by the loop is not a constant inside it
+			for _, m := range loopStepRe.FindAllStringSubmatch(ev.Text, -1) {
+				delete(env, m[1])
+			}
 			continue
 		}
 		if ev.Kind == "set" {
+			// op-assignment to a numbered local: $n += v  reads  $n = <old> + v
+			if m := opAssignRe.FindStringSubmatch(ev.Text); m != nil {
+				name, op, v := m[1], m[2], sub(m[3])
+				ne.Text = name + op + "=" + v
+				if old, ok := env[name]; ok && !object[name] {
+					env[name] = "(" + old + op + v + ")"
+				} else {
+					delete(env, name)
+				}
+				out = append(out, ne)
+				continue
+			}
 			if i := strings.Index(ev.Text, "="); i > 0 && dollarRe.MatchString(ev.Text[:i]) && dollarRe.FindString(ev.Text[:i]) == ev.Text[:i] {
 				name, v := ev.Text[:i], sub(ev.Text[i+1:])
 				// the result of a call: a second evaluation of the same call text on this path is a different value
@@ -900,6 +947,13 @@ func (e *nenum) inline(fr *nframe, ce *ast.CallExpr, d *ast.FuncDecl, retTo []as
 				s := e.render(fr, a)
 				if _, isBin := a.(*ast.BinaryExpr); isBin {
 					s = "(" + s + ")"
+				}
+				// a pointer to a variable passed for a pointer parameter: the helper works on the variable itself
+				// (indexing and field selection dereference implicitly)
+				if ue, ok := a.(*ast.UnaryExpr); ok && ue.Op == token.AND {
+					if _, isPtr := f.Type.(*ast.StarExpr); isPtr {
+						s = e.render(fr, ue.X)
+					}
 				}
 				subst[nm.Name] = s
 				i++
